@@ -493,6 +493,16 @@ pub fn main() {
             g.push(Case { n: 1 << 24, kind: Kind::U8, op: Op::Big(which, true), salt: 0 });
         }
     }
+    // the unoptimised build only runs the small-stack constructions (everything else is identical to the optimised run)
+    if std::env::var("VERIF_PROFILE").as_deref() == Ok("stk") {
+        g.retain(|c| matches!(c.op, Op::Big(..)));
+        for which in 0..10u8 {
+            let c = Case { n: 0, kind: Kind::U8, op: Op::Big(which, which % 2 == 1), salt: 1 };
+            if !g.contains(&c) {
+                g.push(c);
+            }
+        }
+    }
     let acc = engine::parallel(&args, PROP, |w, workers, acc| {
         for (i, c) in g.iter().enumerate() {
             if i % workers == w {
@@ -511,7 +521,7 @@ pub fn main() {
                    Oracle: contents equal the source Vec in order (values and identities); Ok iff source length = N; on LengthError every element of the rejected source has been dropped; for the conversions documented O(1) the data pointer is unchanged and the recording allocator saw no dealloc/realloc of that block and no new block of its size; the five boxed constructors build 4 MiB and 16 MiB arrays of bytes, and 31- and 32-element arrays of 16 KiB elements, on a thread with a 256 KiB stack inside a child process (a stack round trip kills the child). \
                    non-trivial = wrong source length, or a block-identity check on a non-empty non-zero-sized array, or a multi-MiB construction; distinct = distinct case tuples",
             exhaustive: false,
-            assumptions: vec!["the small-stack children are built with the same profile as the harness (opt-level 1): a stack round trip that the optimiser removes entirely would not be seen".into()],
+            assumptions: vec!["the small-stack constructions run twice: in the optimised harness profile and in an opt-level 0 build, where a stack round trip cannot be optimised away".into()],
             extra: serde_json::json!({}),
         },
     );
